@@ -1,4 +1,5 @@
 """Shared by C01..C05 (and C14/C16/C18): option-set generator, recorded solver runs, R_lp and the monitors."""
+import os
 import itertools
 
 from . import common as C
@@ -153,6 +154,43 @@ def small_scope_cases(ctx, label, gen_kwargs):
                    crits=[[c, list(x)] for c, x in crits], argv=argv, ast=ast)
 
 
+README_SETS = [
+    [('maxsize', []), ('gen', [])], [('maxsize', []), ('gre', [])], [('gre', [])], [('maxsize', []), ('mincost', [])],
+    [], [('lsb', []), ('maxsize', [])], [('minsize', []), ('gen', [2])], [('maxsize', []), ('lmb', []), ('minsqcost', [])],
+]
+
+
+def repo_example_cases(ctx, label, gen_kwargs, per_file):
+    """the instances shipped with the repository (Evaluations/*/instances/*.txt: 6 residents/students, ties, lower
+    quotas, two-sided except spa_onesided) under the option sets of the README / of the shipped result files"""
+    import glob
+    root = os.path.join(C.REPO, 'Evaluations')
+    files = sorted(glob.glob(os.path.join(root, '*', 'instances', '*.txt')))
+    want = gen_kwargs.get('n_crits')
+    pool = [c for c in README_SETS if want is None or len(c) == want] or README_SETS
+    if 'crit_names' in gen_kwargs or want is not None:
+        pool = [c for c in pool if (want is None and len(c) >= 2) or (want is not None and len(c) == want)] or pool
+    k = sum(map(ord, label))
+    if per_file == 1:
+        files = files[(k % 2)::2]        # quick tier: every other file
+    for i, f in enumerate(files):
+        text = open(f).read()
+        na = len(text.split('\n', 1)[0].split())
+        two_sided_file = 'onesided' not in f
+        for j in range(per_file):
+            k += 1
+            crits = pool[k % len(pool)]
+            force = gen_kwargs.get('force_twopl')
+            twopl = two_sided_file and (True if force else (k % 3 != 0))
+            if force and not two_sided_file:
+                continue
+            stab = twopl and (gen_kwargs.get('stab_bias', 0) >= 1.0 or k % 4 == 1)
+            pc = (k % 5 == 2)
+            argv = argv_of(na, twopl, pc, stab, crits, None)
+            yield dict(text=text, na=na, twopl=twopl, pc=pc, stab=stab, crits=[[c, list(x)] for c, x in crits],
+                       argv=argv, ast=None, repo_example=os.path.relpath(f, root))
+
+
 def copts(inp):
     return recorder.copts(inp['pc'], inp['stab'], [(c, x) for c, x in inp['crits']])
 
@@ -169,6 +207,7 @@ class LPRelation(Relation):
     n_thorough = 1200
 
     small_scope = True      # thorough tier: also the exhaustive small scope of instgen.enum_small
+    repo_examples = True    # the instances shipped under /repo/Evaluations
     large_cases = 0         # number of larger instances (quick tier); only where the judge scales
 
     def cases(self, ctx):
@@ -176,6 +215,9 @@ class LPRelation(Relation):
             yield c
         if ctx.tier == 'thorough' and not ctx.search and self.small_scope:
             for c in small_scope_cases(ctx, self.name, self.gen_kwargs):
+                yield c
+        if self.repo_examples:
+            for c in repo_example_cases(ctx, self.name, self.gen_kwargs, 3 if ctx.thorough else 1):
                 yield c
         if self.large_cases:
             # larger instances: multi-digit student / project ids, bigger capacities (only for relations whose judge does
@@ -208,7 +250,7 @@ class LPRelation(Relation):
         d = {'status=' + str(obs.get('status')): 1, 'n_crits=%d' % len(inp['crits']): 1,
              'stab' if inp['stab'] else 'no-stab': 1, 'pc' if inp['pc'] else 'no-pc': 1,
              'twopl' if inp['twopl'] else 'one-sided': 1, 'solves=%d' % len(obs.get('snaps') or []): 1,
-             'nonintegral_values': obs.get('nonintegral', 0)}
+             'nonintegral_values': obs.get('nonintegral', 0), 'repo-example-instance': 1 if inp.get('repo_example') else 0}
         if obs.get('exc'):
             d['exc:' + obs['exc'][0]] = 1
         for c, _ in inp['crits']:
